@@ -132,6 +132,35 @@ let run (line : string) : string =
     let g1 = get (contract g (narg 2) (narg 3)) in
     let d1 = full (e_val g1) in
     d1 ^ " => " ^ full (e_val (get (split_edge g1 (narg 4) (narg 5))))
+  | "viewedit" ->
+    (* views of an editable base, observed before and after every edit of the base: the view
+       models applied to the CURRENT model base.  Tokens with ':' are edits, the others edges. *)
+    let is_op t = String.contains t ':' in
+    let es = List.filter (fun t -> not (is_op t)) toks in
+    let ops = List.filter is_op toks in
+    let base = ref (editable (build (List.nth args 0) (arg 1) (List.map edge_of es))) in
+    let v = List.map ni (comma_ints (List.nth args 2)) in
+    let buf = Buffer.create 1024 in
+    let first = ref true in
+    let see_all () =
+      let b = e_val !base in
+      List.iter (fun g ->
+          if not !first then Buffer.add_string buf " => ";
+          first := false;
+          Buffer.add_string buf (full g))
+        [b; GC b; induced_view b v; GC (induced_view b v); induced_view (GC b) v] in
+    see_all ();
+    List.iter (fun t ->
+        (match String.split_on_char ':' t with
+         | ["av"; l] -> base := get (e_add_vertex !base (List.map ni (comma_ints l)))
+         | ["rv"; x] -> base := get (e_remove_vertex !base (ni (int_of_string x)))
+         | ["ae"; e] -> let (a, b) = edge_of e in base := get (e_add_edge !base a b)
+         | ["re"; e] -> let (a, b) = edge_of e in base := get (e_remove_edge !base a b)
+         | ["sp"; e] -> let (a, b) = edge_of e in base := get (split_edge !base a b)
+         | ["ct"; e] -> let (a, b) = edge_of e in base := get (contract !base a b)
+         | _ -> failwith ("bad edit " ^ t));
+        see_all ()) ops;
+    Buffer.contents buf
   | "graph6" ->
     (* C08's decoder model completed by NewDense (Graph/CtorDecodeModel.v); a decode error is "wf" *)
     (match graph6_decode_graph (List.map z_of_int (itoks ())) with
